@@ -495,7 +495,8 @@ def render(e):
     if k == 'rep1': return '{' + render(e[1]) + '}+'
     if k == 'join':
         op = '%' if e[4] else '.'
-        return rterm(e[1]) + op + '{' + render(e[2]) + '}' + ('+' if e[3] else '')
+        sep = render(e[1]) if e[1][0] in ('tok', 'pat', 'call', 'dot', 'grp') else '(' + render(e[1]) + ')'
+        return sep + op + '{' + render(e[2]) + '}' + ('+' if e[3] else '')
     if k == 'and': return '&' + rterm(e[1])
     if k == 'not': return '!' + rterm(e[1])
     if k == 'named': return e[1] + '=' + rterm(e[2])
@@ -508,7 +509,7 @@ def render(e):
     raise ValueError(k)
 
 def rterm(e):
-    if e[0] in ('seq', 'alt', 'named', 'namedl', 'ovr', 'ovrl', 'and', 'not', 'skipto'):
+    if e[0] in ('seq', 'alt', 'named', 'namedl', 'ovr', 'ovrl', 'and', 'not', 'skipto', 'join'):
         return '(' + render(e) + ')'
     return render(e)
 
